@@ -1,6 +1,7 @@
 package c18
 
 import (
+	"bytes"
 	"context"
 	"crypto/sha256"
 	"encoding/json"
@@ -142,6 +143,24 @@ var getBase = sync.OnceValue(func() baseFiles {
 				b.names = append(b.names, name)
 			}
 		}()
+	}
+	// files the library refuses to open although they are well-formed (an unsupported but legal structure): a refused open
+	// is an outcome like any other and must leave the other handles of the process alone. Here: the root group's symbol-table
+	// B-tree node marked as an internal node (level 1), as the groups of large old-style files have.
+	for _, n := range []string{"v0.h5", "simple.h5", "with_groups.h5"} {
+		data, err := os.ReadFile(filepath.Join(repoDir(), "testdata", n))
+		idx := bytes.Index(data, []byte("TREE"))
+		if err != nil || idx < 0 || idx+6 > len(data) || data[idx+4] != 0 {
+			continue
+		}
+		deep := append([]byte(nil), data...)
+		deep[idx+5] = 1
+		name := "refused:deep-" + n
+		dst := filepath.Join(b.dir, baseFileName(name))
+		if os.WriteFile(dst, deep, 0o644) == nil && safeObserve(dst) == "open:err" {
+			b.names = append(b.names, name)
+			break
+		}
 	}
 	sort.Strings(b.names)
 	return b
@@ -295,6 +314,7 @@ func genCase(t *rapid.T) Case {
 		c.FileMB = rapid.SampledFrom([]int{1, 50, 200, 600, 2000}).Draw(t, "file_mb")
 		c.MinConf = rapid.SampledFrom([]int{0, 0, 30, 30, 70}).Draw(t, "min_conf")
 		c.StableUS = rapid.SampledFrom([]int{0, 0, 100, 30000000}).Draw(t, "stable_us")
+		c.DetCap = rapid.SampledFrom([]int{0, 0, 4, 16, 64}).Draw(t, "det_cap")
 		c.Loops = rapid.IntRange(1, 6).Draw(t, "loops")
 		n := rapid.IntRange(2, 6).Draw(t, "n")
 		// KF-C18-03 and KF-C18-04 are repaired in /repo (fix: commits), so user-side Evaluate and a lifecycle
